@@ -7,18 +7,22 @@ Local Open Scope nat_scope.
 Lemma inv_step1 c s : Inv c s -> enabled s 1 = true -> Inv c (fst (tstep c s 1)).
 Proof.
   intros I E. unfold tstep, enabled in *.
-  destruct I as [I1 I2 I3 I4 I5 I6 I7 I8 I9 I10 I11 I12 I13 I14 I15 I16 I17 I18 I19 I20 I21 I22 I23 I24 I25 [I26 I26b] [I27 I27b] I28 I29 I30 I31 I32 I33 I34 I35].
+  destruct I as [I1 I2 I3 I4 I5 I6 I7 I8 I9 I10 I11 I12 Itok Iph IphB Iowc Ip4 Irp Ioht Iocc I13 Ioh Iop0 Idec Iow0 Iow1 Iow2 I14 I15 I16 I17 I18 I19 I20 I21 I22 I23 I24 I25 [I26 I26b] [I27 I27b] I28 I29 I30 I31 I32 I33 I34 I35].
   unfold N, expected, wout in *.
   assert (CV : cv c <= 1) by (unfold cv, b2n; destruct (is_conv c); lia).
   assert (NF1 : nfire s <= 1) by (destruct (slot s); cbn [rdy] in I6; lia).
   assert (CVN : cv c * nfire s <= nfire s) by (unfold cv, b2n; destruct (is_conv c); lia).
+  assert (RP1 : b2n (rp c) <= 1) by (destruct (rp c); cbn [b2n]; lia).
+  assert (CVN2 : cv c * nfire s <= cv c) by (unfold cv, b2n; destruct (is_conv c); lia).
   cbn [thr] in *.
   dth s.
   (* instruction x shared flags x adapter *)
   destruct ins; unfold exec, fire, deliver.
   all: red1; dflags s; red1.
   all: redch.
-  all: try (dpay s; red1).
+  (* a late resolver that was woken without a forwarded promise: the outer future is ready *)
+  all: try match goal with T0 : _ = IOWait :: _ |- _ => cbn beta iota in E; destruct (oslot s) eqn:FOS; try discriminate E; redch end.
+  all: try (dpay s; red1; dflags s; red1; redch).
   all: try match goal with
        | H : context[outcome_eqb ?r ?e] |- _ =>
            let Q := fresh "Q" in destruct (outcome_eqb r e) eqn:Q; [apply outcome_eqb_eq in Q; subst r|]; redch
@@ -29,10 +33,20 @@ Proof.
   all: try (specialize (I22 eq_refl); destruct I22 as [I22 I22b]).
   all: try (specialize (I23 eq_refl)).
   all: try (specialize (I3 eq_refl)).
-  all: try (destruct I21 as [I21|I21]).
+  all: try match goal with T0 : _ = IDtorP :: _ |- _ => destruct I21 as [I21|I21] end.
   all: try match goal with T0 : _ = IClaim _ :: _ |- _ => try (rewrite I26b in * by lia; cbn [rn] in * ); try (rewrite I27b in * by lia; cbn [rn] in * ) end.
+  all: try match goal with T0 : th2 _ = _ |- _ => destruct Iow2 as [Iow2|Iow2]; [first [discriminate Iow2 | inversion Iow2; subst]|]; redch end.
   all: try (unfold hb, cv, is_conv in *; rewrite AD in *; cbn [has_helper b2n Nat.mul] in * ).
+  (* one obligation per invariant field; the source-cell fields do not need the converter's hypotheses *)
   all: constructor; unfold N, expected, wout; red1; try (unfold hb, cv, is_conv; rewrite AD; cbn [has_helper b2n Nat.mul]); redc;
-       cbn [conv_result]; rewrite ?outcome_eqb_refl; redc.
+       rewrite ?outcome_eqb_refl; redc.
+  all: try (first [assumption | reflexivity]).
+  all: try (solve [clear I11 I12 Itok Iph IphB Iowc Ip4 Irp Ioht Iocc I13 Ioh Iop0 Idec Iow0 Iow1 Iow2 I14 I15 I16 I17 I18 I19; fin]).
   all: fin.
+  (* a declined promise: the outer future completes without a value, which is what the converter's choice means *)
+  all: try (intros; cbn [conv_result]; rewrite ?CB; reflexivity).
+  all: try (intros; rewrite Iop0 by lia; rewrite Idec by (first [reflexivity | lia]); reflexivity).
+  all: try (destruct I21 as [I21|I21]; [left; lia|right; exact I21]).
+  (* a converter that forwards the promise exists only in the configuration that has the late resolver *)
+  all: try (unfold rp, cv in *; rewrite CB in *; cbn [Nat.eqb] in *; rewrite ?andb_true_r in *; lia).
 Qed.
